@@ -168,6 +168,29 @@ PROPS = {
         "assumptions": ["SetID(\"_random\"/\"_addr\") (generated IDs) is excluded: the generator never produces the two magic words",
                         "the model follows the repaired SetEncap (F21: an empty []string is ignored)"],
     },
+    "C19": {
+        "lean": ["Stackage.Props.C19"],
+        "streams": [{"name": "nilpat", "quick": 3000, "thorough": 200000}],
+        "rule": "stacks built from nil/non-nil patterns (values 1,2,3,.. in order so that order and identity are observable): every pattern of "
+                "length 0..5 (quick) / 0..12 (thorough) x max in {default,1,2,3,50} x the four negative/forward index option settings, then random "
+                "patterns of length 13..24 (quick) / ..40 (thorough) aimed at the boundaries (N = 2t+5, first gap around the limit, runs around the "
+                "limit, alternating, dense, sparse, none), max also 0/-1/4/7/12/MaxInt/MinInt, nesting depth 0..2 inside Stacks (native, alias, alias "
+                "with String, pointer; some read-only, some zero-valued) and Conditions; the real Defrag(max...) is called and Len, every element "
+                "and Err() of the whole tree are compared with the model (M) and with the filter specification (S); a spec mismatch is a known "
+                "finding iff the driver puts the input into a class of known_findings.json AND the implementation equals the model's prediction; "
+                "non-trivial = the top-level stack has a nil and at least 3 elements",
+        "modelled": COMMON_MODELLED + ["spat/tpat ([]int holding 0/1) as Bool lists; len(data) at iteration i as i-1 (one distinct key per iteration)",
+                                       "the mutex taken by implode is ignored (C10)"],
+        "assumptions": ["lengths < 2^62", "no Err recorded on the stacks beforehand (Defrag's Err clause is about its own report)",
+                        "one Go stack object is not nested at two places"],
+        "level_text": "Lean 4 theorems over the model of defrag/implode/verifyImplode for all stacks, scan limits and index options: the stated "
+                      "property is refuted (C19_counterexample) and replaced by what holds (termination, no-nil untouched, sub-sequence, exact success "
+                      "class, shape); single-stack level proved, the lifting to nested trees is checked by the correspondence run only; model tied to "
+                      "/repo by regenerated guards and a differential correspondence check (exhaustive over all patterns of length <= 12 in thorough)",
+        "explanation": "C19 as stated is false of the code (theorem C19_counterexample); the code is not repaired because TestDefrag_experimental_001 pins "
+                       "its result. Proved instead: termination/no panic, no-nil stacks untouched, values never reordered or invented, the exact success "
+                       "class DefragOK (iff), the shape of the result. Not proved: the lifting of the class to nested trees (checked by the correspondence run).",
+    },
 }
 
 
@@ -304,12 +327,58 @@ def nontrivial(pid, payload):
         return True
     if pid in ("C04", "C16"):
         return payload.count("[") >= 2
+    if pid == "C19":
+        top = _c19_top(payload)
+        return "N" in top and len(top) >= 3
     if pid in ("C13", "C14", "C06"):
         return len(ops) >= 2
     return len(ops) >= 3 and len(kinds) >= 2
 
 
+def _c19_top(payload):
+    """tokens of the top-level elements of a nilpat case (nested literals collapsed to one token)"""
+    toks = payload.split(" | ")[0].split()
+    out, depth = [], 0
+    for t in toks[4:]:
+        if t == "[":
+            depth += 1
+        elif t == "]":
+            depth -= 1
+            if depth < 0:
+                break
+        elif depth == 0 and t in ("K", "C", "Z"):
+            out.append(t + "*")
+        elif depth == 0 and t not in ("n", "a", "as", "p", "-", "c1", "6b") and "=" not in t:
+            out.append(t)
+    return out
+
+
+def _c19_distribution(cases):
+    d = {"length": {}, "max": {}, "index_options": {}, "nesting": {}, "nil_share": {}}
+    def inc(k, v):
+        d[k][v] = d[k].get(v, 0) + 1
+    for c in cases:
+        payload = c.split(" | ", 1)[1]
+        top = _c19_top(payload)
+        n = len(top)
+        inc("length", "0-5" if n <= 5 else "6-12" if n <= 12 else "13-24" if n <= 24 else "25+")
+        inc("max", payload.rsplit(" ", 1)[-1])
+        cfg = payload.split()[2]
+        o = 0
+        for kv in cfg.split(","):
+            if kv.startswith("o="):
+                o = int(kv[2:])
+        inc("index_options", {0: "none", 16: "neg", 32: "fwd", 48: "neg+fwd"}[o & 48])
+        lit = payload.split(" | ")[0]
+        inc("nesting", "cond+stack" if " C " in lit and lit.count(" K ") > lit.count(" C ") else "cond" if " C " in lit else "stack" if " K " in lit[2:] else "flat")
+        nn = top.count("N")
+        inc("nil_share", "none" if nn == 0 else "<1/3" if 3 * nn < n else "<2/3" if 3 * nn < 2 * n else ">=2/3")
+    return d
+
+
 def distribution(pid, cases):
+    if pid == "C19":
+        return _c19_distribution(cases)
     d = {"ops": {}, "sizes": {}}
     for c in cases:
         ops = c.rsplit(" | ", 1)[-1].split(" ; ")
